@@ -471,7 +471,7 @@ type asset struct {
 func (a *asset) getVodMPD(mpdName string) (*m.MPD, error) {
 	md, ok := a.MPDs[mpdName]
 	if !ok {
-		return nil, fmt.Errorf("unknown mpd name")
+		return nil, fmt.Errorf("unknown mpd name: %w", errNotFound)
 	}
 	return m.ReadFromString(md.MPDStr)
 }
